@@ -234,8 +234,36 @@ SCHEDULES = ("N", "NR", "RN", "NON", "NO")
 
 def schedule_target(schedule):
     """which spec the database is in after the schedule: 'new' | 'old'"""
-    last = [c for c in schedule if c in "NO"]
-    return "new" if last and last[-1] == "N" else "old"
+    last = [c for c in schedule if c in "NOM"]
+    return "new" if last and last[-1] in "NM" else "old"
+
+
+def load_mutated(spec_old, lname, edit):
+    """schedule "M": the object-level in-place edit of a loaded database (the workflow of examples/mksomersaultmodifiedpdx.py):
+    the BIT-LENGTH of the parameter named by a "bitlen" attribute edit (CODED-CONST / NRC-CONST: its STANDARD-LENGTH-TYPE object;
+    RESERVED: the parameter itself) is assigned on the loaded objects, then Database.refresh().  -> (database | None, problem)"""
+    import warnings
+    with warnings.catch_warnings():
+        warnings.simplefilter("ignore")
+        try:
+            edit = edit.get("of", edit)
+            new_bl = int(edit["rows"][0][2])
+            db = load(spec_old)
+            dl = next(d for d in db.diag_layers if d.short_name == lname)
+            svc = next(x for x in dl.services if x.short_name == edit["service"])
+            sec, j, i = edit["loc"]
+            p = (svc.request if sec == "req" else (svc.positive_responses if sec == "pos" else svc.negative_responses)[j]).parameters[i]
+            if edit.get("pkind") == "reserved":
+                p.bit_length = new_bl
+            else:
+                p.diag_coded_type.bit_length = new_bl
+        except Exception as e:  # noqa
+            return None, f"setup:{type(e).__name__}"
+        try:
+            db.refresh()
+        except Exception as e:  # noqa
+            return None, f"foreign:{type(e).__name__}"
+    return db, None
 
 
 def _layer_objects(db):
